@@ -203,7 +203,8 @@ var jsrSegs = []string{"a", "b", "7", "ab", "x.js", "", "abx7"}
 func PathUniverse(r rm.Router, tier string, small bool) Universe {
 	u := Universe{RMethods: []string{"GET", "POST"}, QMethods: []string{"GET", "POST", "PUT"}}
 	if r == rm.Curly {
-		u.Tokens, u.Roots, u.Segs = baseTokens, baseRoots, baseSegs
+		// CurlyRouter also gets a root path whose token is a variable with a literal suffix
+		u.Tokens, u.Roots, u.Segs = baseTokens, append(append([]string{}, baseRoots...), "/{q}.js"), baseSegs
 	} else {
 		u.Tokens, u.Roots, u.Segs = jsrTokens, baseRoots, jsrSegs
 	}
